@@ -145,6 +145,34 @@ def run(F, R, tier):
                 # statement position (dropped) or tail value of a helper returning io::Result
                 det = "result is dropped"
             R.ob("io-result-consumed", key, ok, det, loc)
+    # error-discarding adaptors: `Result::ok` / `.ok()` / `.unwrap_or*()` / `.flatten()` applied to an io::Result (also as a
+    # function value handed to an iterator adaptor: `bytes().map_while(Result::ok)`, `lines().filter_map(Result::ok)`)
+    # turn a failing read into "no more data" — in any function reachable from the named builtins
+    n_ad = 0
+    for p, g in sorted(F.fns.items()):
+        base = p.split("::{closure")[0]
+        if base not in named_fns or not (g["file"].endswith("builtins/functions.rs") or g["file"].endswith("builtins/pcap.rs")):
+            continue
+        b = H.body_of(g)
+        if b is None:
+            continue
+        k = 0
+        for x in H.walk(b):
+            bad = None
+            if x.get("k") == "path" and x.get("res", {}).get("r") == "fn" and "std::io::Error" in (x.get("ty") or ""):
+                nm = H.last(x["res"].get("path") or "")
+                if nm in ("ok", "unwrap_or", "unwrap_or_default", "unwrap_or_else", "is_ok", "is_err", "unwrap", "expect") and "Result" in (x["res"].get("path") or ""):
+                    bad = "Result::%s used as a function over io::Result values" % nm
+            elif x.get("k") == "mcall" and x["m"] in ("ok", "unwrap_or", "unwrap_or_default", "unwrap_or_else") and "std::io::Error" in (x.get("recv_ty") or x["recv"].get("ty") or ""):
+                bad = ".%s() on an io::Result" % x["m"]
+            elif x.get("k") == "mcall" and x["m"] in ("flatten", "flat_map") and "std::io::" in (x.get("recv_ty") or x["recv"].get("ty") or "") and \
+                    any(t in (x.get("recv_ty") or x["recv"].get("ty") or "") for t in ("Bytes<", "Lines<", "Split<")):
+                bad = ".%s() over an iterator of io::Result items" % x["m"]
+            if bad:
+                n_ad += 1
+                R.ob("io-error-discarded", "%s#%d" % (p, k), False, bad + ": the OS failure is dropped instead of becoming an error object", F.loc(g, x.get("line")))
+                k += 1
+    R.ob("io-error-discarded", "no error-discarding adaptor on io::Result in the I/O builtins", n_ad == 0, "%d found" % n_ad)
     R.count("io::Result producers in builtins/functions.rs", n_sites)
     R.floor("io::Result producers", n_sites, 20)
     # pcap.rs: functions returning io::Result propagate inner results with `?`
